@@ -94,6 +94,26 @@ func init() {
 			h("cont.H_Build", bld(2, 2, 2), bld(2, 3, 1), buildCov, 0, buildDesc),
 		}},
 	)
+	dsp := func(profile, n, nodes, L, closes, faults, errmask int) map[string]int {
+		return map[string]int{"profile": profile, "n": n, "nodes": nodes, "L": L, "closes": closes, "faults": faults, "errmask": errmask, "order_schemes": 1, "fnth_max": 2}
+	}
+	dspCov := []string{"built", "resolved", "all_closed"}
+	const dspDesc = "world with disposable services (S0,S1,S3 and every auxiliary output have Close), real Build, scope tree, L symbolic + one exhaustive sweep of resolutions, then a symbolic sequence of Close calls on any node (repetitions allowed) and a final close of everything; optional fault plan (the k-th invocation of one constructor returns an error / nil / panics: during Build, scope creation or resolution) and symbolic mask of instances whose Close fails; close counters, the extent (which container Close) of every close, stamps and return values checked"
+	properties = append(properties,
+		propertySpec{ID: "C10", Harnesses: []harnessSpec{
+			h("cont.H_Dispose", dsp(0, 2, 3, 1, 1, 0, 0), dsp(0, 2, 4, 1, 2, 0, 0), dspCov, 20, dspDesc),
+			h("cont.H_Dispose", dsp(2, 2, 3, 1, 1, 1, 0), dsp(2, 3, 3, 1, 1, 1, 0), append([]string{"scope_failed", "build_failed"}, dspCov...), 10, dspDesc),
+			h("cont.H_Dispose", dsp(1, 2, 3, 0, 1, 1, 0), dsp(0, 2, 3, 1, 1, 1, 0), append([]string{"build_failed"}, dspCov...), 0, dspDesc),
+		}},
+		propertySpec{ID: "C11", Harnesses: []harnessSpec{
+			h("cont.H_Dispose", dsp(0, 2, 3, 1, 1, 0, 0), dsp(0, 2, 4, 1, 2, 0, 0), dspCov, 20, dspDesc),
+			h("cont.H_Dispose", dsp(1, 3, 3, 0, 1, 0, 0), dsp(1, 3, 4, 1, 1, 0, 0), dspCov, 0, dspDesc),
+		}},
+		propertySpec{ID: "C12", Harnesses: []harnessSpec{
+			h("cont.H_Dispose", dsp(1, 2, 3, 1, 2, 0, 1), dsp(1, 3, 3, 1, 2, 0, 1), dspCov, 20, dspDesc),
+			h("cont.H_Dispose", dsp(0, 2, 3, 0, 1, 0, 1), dsp(0, 2, 4, 1, 2, 0, 1), dspCov, 0, dspDesc),
+		}},
+	)
 	for i := range properties {
 		switch properties[i].ID {
 		case "C05":
